@@ -19,6 +19,16 @@ HOOKS = {
 }
 
 PROPS = {
+    "C10": {
+        "bin": "c10",
+        "explanation": "Mode O decision-table checking of the real builders: structural cases (static / dynamic rank incl. too small, data length 0..min+1, axis length n-1/n/n+1 or default, boundary-array shapes, 2-D with x and y independent, "
+                       "combinations) are enumerated while every axis element, data element and periodic end row is an unconstrained IEEE double. For every feasible path z3 proves Ok => valid (oracle written in SMT: lengths, "
+                       "forall i x_i < x_i+1 bit-precisely, boundary shape, periodic rows fp.eq) and Err(kind) => the requirement class of that kind is violated; panic paths are findings.",
+        "trusted_base": O_TRUST,
+        "technique": "symbolic execution of the real validation chain + z3 QF_FP over all axis / data values (NaN, ties, swaps as models) against an SMT oracle; native replay",
+        "level_text": "Bounded symbolic model checking of the full decision table (265 quick / more thorough structural cases) with all values symbolic: exact acceptance, matching error kind, no panic from construction to build.",
+        "level_note": "Trusted: engine S, z3 FP. Axis lengths <= 5. Found the constructor panic on dynamic data of too small rank (repaired by a fix: commit). monotonic_prop itself is also checked bit-precisely by C12 (engine K).",
+    },
     "C09": {
         "bin": "c09",
         "explanation": "Mode O, configuration enumeration x symbolic values: inside one execution (decisions on identical conditions memoised) the real Interp1D / Interp2D is queried through interp_array, interp_array_into, "
